@@ -459,6 +459,22 @@ run_batch(const BatchCfg &cfg, const CaseSource &src, JW *extra_cov)
                                                 fflush(stdout);
                                                 continue;
                                         }
+                                        if (const KnownFinding *kf = match_known(known, v)) {
+                                                // a listed finding: count it, no gate / shrink / replay file
+                                                bool have = false;
+                                                for (auto &x : out.viols)
+                                                        if (x.known && x.known_what == kf->what)
+                                                                have = true;
+                                                if (!have) {
+                                                        WorkerOut::V rec;
+                                                        rec.v = v;
+                                                        rec.seed = run_seed;
+                                                        rec.known = true;
+                                                        rec.known_what = kf->what;
+                                                        out.viols.push_back(rec);
+                                                }
+                                                continue;
+                                        }
                                         if (out.viols.size() >= 6)
                                                 continue;
                                         WorkerOut::V rec;
